@@ -3,6 +3,13 @@
 // CALL / CALLCODE / DELEGATECALL / STATICCALL / CREATE, SELFDESTRUCT, exit with success flag),
 // the gas the top-level frame consumed and the refund counter when it ended.  Nothing is
 // interpreted here: whether an event had an effect (reverted frames) is the specification's job.
+//
+// It also records every CALL-SITE: each executed call-family instruction (CALL, CALLCODE,
+// DELEGATECALL, STATICCALL, CREATE, CREATE2) with the gas of the executing frame before the
+// instruction, after it has been charged, and after it has completed, the operands that matter
+// for gas (value zero / non-zero read as an UNSIGNED word, the gas operand), and -- if a frame was
+// entered -- the gas handed to that frame and the gas it used.  The specification's FrameGasSound
+// is evaluated on these records.
 package txexec
 
 import (
@@ -20,6 +27,40 @@ import (
 //   exit:  flag 1 = frame ended without error; to = code id deployed (create frames)
 type frameEv [5]interface{}
 
+// call-site as the trace carries it:
+//   [kind, vnz, req, gb, gc, cost, ga, entered, passed, used]
+//   kind    call | ccode | dcall | scall | create
+//   vnz     1 = the value operand is not zero (unsigned)
+//   req     the gas operand (-1: does not fit 64 bits; clamped to 2^30)
+//   gb      gas of the executing frame before the instruction
+//   gc      ... after the instruction has been charged (constant + dynamic gas)
+//   cost    the cost the interpreter reports for the instruction
+//   ga      ... when the instruction has completed (gc + gas returned)
+//   entered 1 = a frame was entered;  passed = gas handed to it;  used = gas it used
+type siteEv [10]interface{}
+
+type site struct {
+	idx, depth             int
+	kind                   string
+	vnz                    int
+	req                    int64
+	gb, gc, cost, ga       uint64
+	entered                int
+	passed, used           uint64
+	closed                 bool
+}
+
+// runaway is the panic value the tracer uses to abandon a run that executes more instructions than
+// its gas can pay for.
+type runaway struct{}
+
+func clampU(x uint64) int64 {
+	if x >= uint64(maxAmount) {
+		return maxAmount
+	}
+	return int64(x)
+}
+
 type tracer struct {
 	u       *universe
 	env     *kvm.KVM
@@ -32,7 +73,83 @@ type tracer struct {
 	topErr  error
 	topOut  []byte
 	bad     string // something the driver cannot represent (amount too large)
+	steps   uint64  // executed instructions
+	stepCap uint64  // more instructions than this cannot be paid for by the transaction's gas: the run is cancelled
+	cancel  bool
+	sites   []*site // all call-sites in the order they were reached
+	pending []*site // call-sites whose instruction has not completed yet (innermost last)
 }
+
+func (t *tracer) siteEvents() []siteEv {
+	out := make([]siteEv, 0, len(t.sites))
+	for _, s := range t.sites {
+		if !s.closed {
+			continue // the frame died before the next instruction (cannot happen after a call instruction)
+		}
+		out = append(out, siteEv{s.kind, s.vnz, s.req, clampU(s.gb), clampU(s.gc), clampU(s.cost), clampU(s.ga), s.entered,
+			clampU(s.passed), clampU(s.used)})
+	}
+	return out
+}
+
+// step is called for every instruction (also for one that fails while being charged).
+func (t *tracer) step(op kvm.OpCode, gas, cost uint64, scope *kvm.ScopeContext, depth int, err error) {
+	t.steps++
+	if t.stepCap > 0 && t.steps > t.stepCap {
+		// every instruction that does not end its frame costs gas: this run executes more instructions
+		// than its gas can pay for (gas is being created) and may never end.  kvm.Cancel is only looked
+		// at every 1000 instructions of one frame, so the run is abandoned by a panic that the driver
+		// recovers; the event carries the instruction count.
+		t.cancel = true
+		panic(runaway{})
+	}
+	// the previous call instruction of this frame has completed: `gas` is what the frame has now
+	if n := len(t.pending); n > 0 && t.pending[n-1].depth == depth {
+		s := t.pending[n-1]
+		s.ga, s.closed = gas, true
+		t.pending = t.pending[:n-1]
+	}
+	if err != nil || scope == nil {
+		return
+	}
+	kind := ""
+	switch op {
+	case kvm.CALL:
+		kind = "call"
+	case kvm.CALLCODE:
+		kind = "ccode"
+	case kvm.DELEGATECALL:
+		kind = "dcall"
+	case kvm.STATICCALL:
+		kind = "scall"
+	case kvm.CREATE, kvm.CREATE2:
+		kind = "create"
+	default:
+		return
+	}
+	s := &site{idx: len(t.sites), depth: depth, kind: kind, gb: gas, gc: scope.Contract.Gas, cost: cost}
+	st := scope.Stack
+	switch kind {
+	case "call", "ccode":
+		if !st.Back(2).IsZero() {
+			s.vnz = 1
+		}
+	case "create":
+		if !st.Back(0).IsZero() {
+			s.vnz = 1
+		}
+	}
+	if kind != "create" {
+		if g := st.Back(0); !g.IsUint64() {
+			s.req = -1
+		} else {
+			s.req = clampU(g.Uint64())
+		}
+	}
+	t.sites = append(t.sites, s)
+	t.pending = append(t.pending, s)
+}
+
 
 func (t *tracer) amount(v *big.Int) int64 {
 	if v == nil {
@@ -50,6 +167,7 @@ func (t *tracer) CaptureStart(env *kvm.KVM, from common.Address, to common.Addre
 }
 
 func (t *tracer) CaptureState(pc uint64, op kvm.OpCode, gas, cost uint64, scope *kvm.ScopeContext, rData []byte, depth int, err error) {
+	t.step(op, gas, cost, scope, depth, err)
 }
 
 func (t *tracer) CaptureFault(pc uint64, op kvm.OpCode, gas, cost uint64, scope *kvm.ScopeContext, depth int, err error) {
@@ -75,6 +193,13 @@ func (t *tracer) CaptureEnter(typ kvm.OpCode, from common.Address, to common.Add
 	}
 	t.kinds = append(t.kinds, typ)
 	t.evs = append(t.evs, frameEv{k, t.u.id(from), t.u.id(to), t.amount(value), 0})
+	if typ != kvm.SELFDESTRUCT {
+		if n := len(t.pending); n > 0 && t.pending[n-1].entered == 0 {
+			t.pending[n-1].entered, t.pending[n-1].passed = 1, gas
+		} else {
+			t.bad = "frame entered without a call-site"
+		}
+	}
 }
 
 func (t *tracer) CaptureExit(output []byte, gasUsed uint64, err error) {
@@ -86,6 +211,9 @@ func (t *tracer) CaptureExit(output []byte, gasUsed uint64, err error) {
 	t.kinds = t.kinds[:len(t.kinds)-1]
 	if typ == kvm.SELFDESTRUCT {
 		return // SELFDESTRUCT is reported as enter+exit: one event
+	}
+	if n := len(t.pending); n > 0 && t.pending[n-1].entered == 1 {
+		t.pending[n-1].used = gasUsed
 	}
 	ok, code := 0, 0
 	if err == nil {
